@@ -16,16 +16,17 @@ Proof. reflexivity. Qed.
 Lemma set_mem_St v mid m g : set_mem v mid m g = St v mid m.
 Proof. reflexivity. Qed.
 
-(* inside the frame of a call made with the argument at b0 *)
-Definition in_frame (b0 ip : Z) (fr : framed) (ser : Z) (x : value) (m1 mc : mem) : Prop :=
-  m_fp mc = m_fp m1 ++ [b0; b0 + 1] /\ m_clos mc = m_clos m1 ++ [fr] /\ m_serials mc = m_serials m1 ++ [ser] /\
+(* inside the frame of a call made with its a arguments (a = 0 or 1) at b0 *)
+Definition in_frame (a b0 ip : Z) (fr : framed) (ser : Z) (x : value) (m1 mc : mem) : Prop :=
+  m_fp mc = m_fp m1 ++ [b0; b0 + a] /\ m_clos mc = m_clos m1 ++ [fr] /\ m_serials mc = m_serials m1 ++ [ser] /\
   incl (m_cap mc) (m_cap m1) /\ firstn (Z.to_nat b0) (m_stack mc) = firstn (Z.to_nat b0) (m_stack m1) /\
-  znth (m_stack mc) b0 = Some x /\ znth (m_stack mc) (b0 + 1) = Some (VInt ip).
+  (a = 1 -> znth (m_stack mc) b0 = Some x) /\ znth (m_stack mc) (b0 + a) = Some (VInt ip).
 
-Lemma in_frame_msame b0 ip fr ser x m1 mc m4 b :
-  in_frame b0 ip fr ser x m1 mc -> msame b mc m4 -> b0 + 2 <= b -> 0 <= b0 -> in_frame b0 ip fr ser x m1 m4.
+Lemma in_frame_msame a b0 ip fr ser x m1 mc m4 b :
+  in_frame a b0 ip fr ser x m1 mc -> msame b mc m4 -> b0 + a + 1 <= b -> 0 <= b0 -> 0 <= a <= 1 ->
+  in_frame a b0 ip fr ser x m1 m4.
 Proof.
-  intros (F & C & S & P & T & X0 & X1) (F' & C' & S' & P' & T' & B') Hb H0. unfold in_frame.
+  intros (F & C & S & P & T & X0 & X1) (F' & C' & S' & P' & T' & B') Hb H0 Ha. unfold in_frame.
   split; [congruence|]. split; [congruence|]. split; [congruence|]. split; [exact (incl_tran P' P)|].
   assert (Hpre : forall i, 0 <= i < b -> znth (m_stack m4) i = znth (m_stack mc) i).
   { intros i Hi. apply (znth_firstn _ _ (Z.to_nat b)); [exact T'|lia|lia]. }
@@ -34,7 +35,7 @@ Proof.
     assert (H : forall l : list value, firstn (Z.to_nat b0) l = firstn (Z.to_nat b0) (firstn (Z.to_nat b) l)).
     { intros l. rewrite firstn_firstn. f_equal. lia. }
     rewrite (H (m_stack m4)), T', <- H. reflexivity.
-  - rewrite Hpre by lia. exact X0.
+  - intros E. rewrite Hpre by lia. exact (X0 E).
   - rewrite Hpre by lia. exact X1.
 Qed.
 
@@ -69,22 +70,22 @@ Proof.
   rewrite nth_error_app2 by lia. replace (_ - _)%nat with 0%nat by lia. reflexivity.
 Qed.
 
-(* ---- CALL of a function with one parameter and one local ---- *)
-Lemma call_enter rr v mid m1 r1 instr A nm morph fid fr b0 x k2 a2 :
+(* ---- CALL of a function with a parameters and a locals, a = 0 or 1 ---- *)
+Lemma call_enter rr v mid m1 r1 instr A nm morph fid fr a b0 x k2 a2 :
   at_ip v r1 mid instr ->
-  decode instr = {| f_op := CALL; f_k0 := AddrGbl; f_k1 := AddrImm; f_k2 := k2; f_a0 := A; f_a1 := 1; f_a2 := a2 |} ->
+  decode instr = {| f_op := CALL; f_k0 := AddrGbl; f_k1 := AddrImm; f_k2 := k2; f_a0 := A; f_a1 := a; f_a2 := a2 |} ->
   znth (v_ds v) A = Some (VStr nm) -> gval (v_globals v) nm = VFun morph fid ->
-  fn_params morph = 1 -> fn_locals morph = 1 -> assoc_get (v_frames v) fid = Some fr ->
-  0 <= b0 -> m_sp m1 = b0 + 1 -> m_sp m1 <= zlen (m_stack m1) -> znth (m_stack m1) b0 = Some x ->
+  fn_params morph = a -> fn_locals morph = a -> assoc_get (v_frames v) fid = Some fr ->
+  0 <= a <= 1 -> 0 <= b0 -> m_sp m1 = b0 + a -> m_sp m1 <= zlen (m_stack m1) -> (a = 1 -> znth (m_stack m1) b0 = Some x) ->
   exists mc, step (St v mid m1) r1 rr = SNext (St (vbump v) mid mc) (with_ip r1 (fn_node morph - 1)) /\
-    in_frame b0 (r_ip r1) fr (v_next v) x m1 mc /\ m_sp mc = b0 + 2 /\ m_sp mc <= zlen (m_stack mc).
+    in_frame a b0 (r_ip r1) fr (v_next v) x m1 mc /\ m_sp mc = b0 + a + 1 /\ m_sp mc <= zlen (m_stack mc).
 Proof.
-  intros Hat Hd Hnm Hg Hp Hl Hfr Hb0 Hsp Hle Hx.
+  intros Hat Hd Hnm Hg Hp Hl Hfr Ha Hb0 Hsp Hle Hx.
   rewrite (step_call v mid m1 r1 rr instr _ _ _ _ _ _ Hat Hd).
-  rewrite (fetch_gbl v mid m1 A nm Hnm). cbn [obind]. rewrite Hg, Hp. cbn [Z.eqb Pos.eqb negb].
+  rewrite (fetch_gbl v mid m1 A nm Hnm). cbn [obind]. rewrite Hg, Hp. rewrite Z.eqb_refl. cbn [negb].
   change (v_frames (St v mid m1)) with (v_frames v). rewrite Hfr. cbn [req obind].
   rewrite bump_St. rewrite St_get. cbn [obind]. rewrite Hl.
-  unfold mPushFrame. replace (1 - 1) with 0 by lia.
+  unfold mPushFrame. replace (a - a) with 0 by lia.
   pose proof (growStack_only_grows m1 0) as (Esp & Efp & Ecl & Elen & Efst).
   assert (Eser : m_serials (fst (growStack m1 0)) = m_serials m1 /\ m_cap (fst (growStack m1 0)) = m_cap m1).
   { unfold growStack. destruct (m_sp m1 + 0 >=? zlen (m_stack m1)); split; reflexivity. }
@@ -98,9 +99,6 @@ Proof.
   destruct (vPush_St (vbump v) mid m2 (VInt (r_ip r1)) Hsp2) as [mc [Hpush [Hmc [Hspc Htop]]]].
   rewrite Hpush. cbn [obind lift next]. exists mc. split; [reflexivity|].
   destruct Hmc as (F & C & S & P & T & B). cbn [m2 m_sp m_fp m_clos m_serials m_cap m_stack] in *.
-  assert (Hx' : znth (m_stack mg) b0 = Some x).
-  { rewrite <- Hx. apply (znth_firstn _ _ (List.length (m_stack m1))); [rewrite Efst; rewrite firstn_all; reflexivity|lia|].
-    unfold zlen in Hle. lia. }
   split; [|split; [lia|lia]].
   unfold in_frame. split; [rewrite F, Efp, Esp; f_equal; f_equal; [lia|f_equal; lia]|].
   split; [rewrite C, Ecl; reflexivity|]. split; [rewrite S, Eser; reflexivity|]. split; [rewrite <- Ecap; exact P|].
@@ -111,26 +109,30 @@ Proof.
     assert (H' : forall l : list value, firstn (Z.to_nat b0) l = firstn (Z.to_nat b0) (firstn (List.length (m_stack m1)) l)).
     { intros l. rewrite firstn_firstn. f_equal. unfold zlen in Hle. lia. }
     rewrite (H' (m_stack mg)), Efst. reflexivity.
-  - rewrite <- Hx'. apply (znth_firstn _ _ (Z.to_nat (m_sp mg + 0))); [exact T|lia|lia].
-  - replace (b0 + 1) with (m_sp mg + 0) by lia. exact Htop.
+  - intros E. specialize (Hx E).
+    assert (Hx' : znth (m_stack mg) b0 = Some x).
+    { rewrite <- Hx. apply (znth_firstn _ _ (List.length (m_stack m1))); [rewrite Efst; rewrite firstn_all; reflexivity|lia|].
+      unfold zlen in Hle. lia. }
+    rewrite <- Hx'. apply (znth_firstn _ _ (Z.to_nat (m_sp mg + 0))); [exact T|lia|lia].
+  - replace (b0 + a) with (m_sp mg + 0) by lia. exact Htop.
 Qed.
 
 (* ---- RET of such a call, with a result that is not a function value ---- *)
 Definition not_fun (y : value) : Prop := match y with VFun _ _ => False | _ => True end.
 
-Lemma call_leave rr v mid m1 m4 r instr b0 ip fr ser x y k1 k2 a0 a1 a2 :
+Lemma call_leave rr v mid m1 m4 r instr a b0 ip fr ser x y k1 k2 a0 a1 a2 :
   at_ip v r mid instr ->
   decode instr = {| f_op := RET; f_k0 := AddrStck; f_k1 := k1; f_k2 := k2; f_a0 := a0; f_a1 := a1; f_a2 := a2 |} ->
-  in_frame b0 ip fr ser x m1 m4 -> 0 <= b0 -> m_sp m4 = b0 + 3 -> m_sp m4 <= zlen (m_stack m4) ->
-  znth (m_stack m4) (b0 + 2) = Some y -> not_fun y ->
+  in_frame a b0 ip fr ser x m1 m4 -> 0 <= a <= 1 -> 0 <= b0 -> m_sp m4 = b0 + a + 2 -> m_sp m4 <= zlen (m_stack m4) ->
+  znth (m_stack m4) (b0 + a + 1) = Some y -> not_fun y ->
   exists m5, step (St v mid m4) r rr = SNext (St v mid m5) (with_ip r ip) /\
     m_fp m5 = m_fp m1 /\ m_clos m5 = m_clos m1 /\ m_serials m5 = m_serials m1 /\ incl (m_cap m5) (m_cap m1) /\
     firstn (Z.to_nat b0) (m_stack m5) = firstn (Z.to_nat b0) (m_stack m1) /\
     m_sp m5 = b0 + 1 /\ m_sp m5 <= zlen (m_stack m5) /\ znth (m_stack m5) b0 = Some y.
 Proof.
-  intros Hat Hd (F & C & S & P & T & X0 & X1) Hb0 Hsp Hle Hy Hnf.
+  intros Hat Hd (F & C & S & P & T & X0 & X1) Ha Hb0 Hsp Hle Hy Hnf.
   rewrite (step_ret v mid m4 r rr instr _ _ _ _ _ _ Hat Hd).
-  rewrite (fetch_stck v mid m4 a0 y) by (rewrite Hsp; replace (b0 + 3 - 1) with (b0 + 2) by lia; exact Hy).
+  rewrite (fetch_stck v mid m4 a0 y) by (rewrite Hsp; replace (b0 + a + 2 - 1) with (b0 + a + 1) by lia; exact Hy).
   cbn [obind].
   assert (Epv : (match y with
                  | VFun morph fid =>
@@ -144,10 +146,10 @@ Proof.
   { destruct y; try reflexivity. contradiction. }
   rewrite Epv. cbn [obind]. rewrite St_get. cbn [obind].
   change (m_fp (mdrop m4)) with (m_fp m4). rewrite F.
-  assert (Hz : (zlen (m_fp m1 ++ [b0; b0 + 1]) - 1 <? 0) = false).
+  assert (Hz : (zlen (m_fp m1 ++ [b0; b0 + a]) - 1 <? 0) = false).
   { apply Z.ltb_ge. unfold zlen. rewrite app_length. cbn [List.length]. lia. }
   rewrite Hz.
-  destruct (fp_at_app2 (mdrop m4) (m_fp m1) b0 (b0 + 1) F) as [F2 F1].
+  destruct (fp_at_app2 (mdrop m4) (m_fp m1) b0 (b0 + a) F) as [F2 F1].
   rewrite F1. cbn [obind]. unfold stack_get. change (m_stack (mdrop m4)) with (m_stack m4). rewrite X1. cbn [req obind].
   unfold mPopFrame. rewrite F2. cbn [obind].
   change (m_clos (mdrop m4)) with (m_clos m4). change (m_serials (mdrop m4)) with (m_serials m4).
